@@ -176,6 +176,21 @@ func implFn(prog string) string {
 				out = t + "k:throw:err:RangeError"
 			case strings.HasPrefix(msg, "SyntaxError"), strings.HasPrefix(msg, "(anonymous)"):
 				out = t + "k:syntaxerror:" + strings.ReplaceAll(msg, " ", "_")
+			// an uncaught value that is not an Error instance comes back as an error whose text is ToString(value)
+			case msg == "[object Object]", strings.HasPrefix(msg, "/"):
+				out = t + "k:throw:obj"
+			case msg == "[object Arguments]":
+				out = t + "k:throw:args"
+			case strings.HasPrefix(msg, "function"):
+				out = t + "k:throw:fn"
+			case msg == "true":
+				out = t + "k:throw:t"
+			case msg == "false":
+				out = t + "k:throw:f"
+			case msg == "null":
+				out = t + "k:throw:null"
+			case msg == "undefined":
+				out = t + "k:throw:u"
 			default:
 				if n, e2 := strconv.ParseInt(msg, 10, 64); e2 == nil {
 					out = t + fmt.Sprintf("k:throw:n%d", n)
